@@ -23,13 +23,18 @@ def CstSem (γ : Subst) : Cst → Prop
   | .distinctfd u => ∃ ns : List Int, apply γ u = Term.ofList (ns.map Term.num) ∧ ns.Nodup
   | .distinctfd2 _ y n => ∃ ns : List Int, y.map (apply γ) = ns.map Term.num ∧ ns.Nodup ∧ ∀ k ∈ ns, k ∉ n
 
-/-- the variable lies in its stored domain -/
-def DomSem (γ : Subst) (st : State) : Prop :=
-  ∀ p ∈ st.dstore, ∃ n, NumAt γ (.var p.1) n ∧ p.2.Mem n
+/-- every variable lies in its stored domain.  `I` is a set of variables whose entries are IGNORED: entries
+    of variables that a unification has just bound and that `process_extension_fd` is about to remove
+    (`I = fun _ => False` everywhere else). -/
+def DomSem (I : Nat → Prop) (γ : Subst) (st : State) : Prop :=
+  ∀ p ∈ st.dstore, ¬ I p.1 → ∃ n, NumAt γ (.var p.1) n ∧ p.2.Mem n
 
 /-- the valuations a state describes -/
-def Sem (γ : Subst) (st : State) : Prop :=
-  Ext st.σ γ ∧ (∀ p ∈ st.store, CstSem γ p.2) ∧ DomSem γ st
+def Sem (I : Nat → Prop) (γ : Subst) (st : State) : Prop :=
+  Ext st.σ γ ∧ (∀ p ∈ st.store, CstSem γ p.2) ∧ DomSem I γ st
+
+/-- only bound variables are ignored -/
+def IOK (I : Nat → Prop) (st : State) : Prop := ∀ y, I y → st.σ y ≠ .var y
 
 /-- `distinctfd` and its worker constraint (outside the fragment the global theorems cover) -/
 def Cst.isDistinct : Cst → Bool
@@ -52,13 +57,19 @@ structure Keeps (st st' : State) : Prop where
   ext : Ext st.σ st'.σ
   numonly : ∀ y, st.σ y = .var y → st'.σ y = .var y ∨ ∃ n, st'.σ y = Term.num n
   dom : ∀ y, st.σ y = .var y → st'.σ y = .var y → (st.dget y).isSome → (st'.dget y).isSome
+  /-- bindings are never undone -/
+  mono : ∀ y, st'.σ y = .var y → st.σ y = .var y
+  /-- new domain entries are for variables that were unbound -/
+  keys : ∀ y, (st'.dget y).isSome → (st.dget y).isSome ∨ st.σ y = .var y
+  /-- entries of bound variables are not touched -/
+  bound : ∀ y, st.σ y ≠ .var y → st'.dget y = st.dget y
 
 /-- `r` is the outcome of adding the condition `S` to the state `st`: on success the new state
     describes exactly the valuations of `st` that satisfy `S` (nothing lost, nothing invented); failure
     means no valuation of `st` satisfies `S`.  (Fuel exhaustion and panics claim nothing.) -/
-def Ref (S : Subst → Prop) (st : State) : Res State → Prop
-  | .ok st' => WFS st' ∧ Keeps st st' ∧ ∀ γ, Sem γ st' ↔ (Sem γ st ∧ S γ)
-  | .fail => ∀ γ, ¬ (Sem γ st ∧ S γ)
+def Ref (I : Nat → Prop) (S : Subst → Prop) (st : State) : Res State → Prop
+  | .ok st' => WFS st' ∧ Keeps st st' ∧ ∀ γ, Sem I γ st' ↔ (Sem I γ st ∧ S γ)
+  | .fail => ∀ γ, ¬ (Sem I γ st ∧ S γ)
   | .fuel => True
   | .panic _ => True
 
